@@ -246,11 +246,87 @@ class Wire:
         return self.q.popleft()
 
 
+class CoopEvent:
+    """Cooperative threading.Event: wait() without a time limit parks the thread
+    until the flag is set (the scheduler does not pick it before)."""
+
+    def __init__(self):
+        self.flag = False
+
+    def is_set(self):
+        return self.flag
+
+    isSet = is_set
+
+    def set(self):
+        _announce('evset', self)
+        self.flag = True
+
+    def clear(self):
+        _announce('evclear', self)
+        self.flag = False
+
+    def can_acquire(self, st):           # (the scheduler's "is this pending access possible" hook)
+        return self.flag
+
+    def wait(self, timeout=None):
+        s = SCHED
+        st = s.me() if s is not None else None
+        if st is None:
+            return self.flag
+        if timeout is not None:
+            s.announce('sleep', None)    # a timed wait: like a sleep, then look
+            return self.flag
+        while True:
+            s.announce('acq', self)      # enabled only while the flag is set
+            if self.flag:
+                return True
+
+
+class CoopCondition:
+    """Cooperative threading.Condition over a CoopRLock (notify wakes every waiter:
+    spurious wake-ups are allowed by the threading documentation)."""
+
+    def __init__(self, lock=None):
+        self.lock = lock or CoopRLock()
+        self.ev = CoopEvent()
+        self.acquire = self.lock.acquire
+        self.release = self.lock.release
+
+    def __enter__(self):
+        self.lock.acquire()
+        return self
+
+    def __exit__(self, *a):
+        self.lock.release()
+        return False
+
+    def wait(self, timeout=None):
+        self.ev.flag = False
+        self.lock.release()
+        try:
+            return self.ev.wait(timeout)
+        finally:
+            self.lock.acquire()
+
+    def notify(self, n=1):
+        self.ev.set()
+
+    notify_all = notify
+    notifyAll = notify
+
+
 class _ThreadingShim(types.ModuleType):
     def __init__(self):
         types.ModuleType.__init__(self, 'threading_shim')
         self.RLock = CoopRLock
         self.Lock = CoopRLock
+        self.Event = CoopEvent
+        self.Condition = CoopCondition
+
+    def __getattr__(self, name):
+        # anything else (current_thread, get_ident, local, ...) is the real thing
+        return getattr(_threading, name)
 
 
 class Patched:
